@@ -1149,6 +1149,37 @@ func (e *Entry) Augment(addErrors bool) (processed, skipped int) {
 	return processed, skipped
 }
 
+// deviateStep is one deviate statement of a deviation.
+type deviateStep struct {
+	dt   deviationType
+	spec *Entry
+}
+
+// deviateSteps returns the deviate statements of d in the order in which they
+// were written, since Deviate is keyed by the type of the deviation only.
+func (d *DeviatedEntry) deviateSteps() []deviateStep {
+	var steps []deviateStep
+	for dt, dv := range d.Deviate {
+		for _, spec := range dv {
+			steps = append(steps, deviateStep{dt, spec})
+		}
+	}
+	written := map[Node]int{}
+	if dn, ok := d.Node.(*Deviation); ok {
+		for i, sd := range dn.Deviate {
+			written[sd] = i + 1
+		}
+	}
+	sort.SliceStable(steps, func(i, j int) bool {
+		wi, wj := written[steps[i].spec.Node], written[steps[j].spec.Node]
+		if wi != wj {
+			return wi < wj
+		}
+		return steps[i].dt < steps[j].dt
+	})
+	return steps
+}
+
 // ApplyDeviate walks the deviations within the supplied entry, and applies them to the
 // schema.
 func (e *Entry) ApplyDeviate(deviateOpts ...DeviateOpt) []error {
@@ -1161,7 +1192,8 @@ func (e *Entry) ApplyDeviate(deviateOpts ...DeviateOpt) []error {
 			continue
 		}
 
-		for dt, dv := range d.Deviate {
+		for _, step := range d.deviateSteps() {
+			dt, dv := step.dt, []*Entry{step.spec}
 			for _, devSpec := range dv {
 				switch dt {
 				case DeviationAdd, DeviationReplace:
